@@ -14,9 +14,23 @@ arbitrary op lists (`run`).  No bounds anywhere.
 `HandlerSpec` is the specification written from the property text: `Matches`, `expected`.
 -/
 import Strophe.Lemmas.HandlerGone
+import Strophe.Gen.Handler
 
 namespace Strophe.C11
 open Strophe Strophe.Handler Strophe.HandlerSpec Strophe.Lemmas.Handler
+
+/-! ### pinning: the shape of handler.c the model assumes (regenerated from the source on every run) -/
+
+/-- the enable loop of the stanza handlers stands in front of the id phase (repair of D27), the id phase
+    re-reads the list head before unlinking (repair of D7), every loop re-reads `item->next` after the
+    callback, duplicates are recognised by callback AND user data, deletion goes by callback only, new
+    stanza/id handlers are linked at the back and new timed handlers at the front, all disabled -/
+theorem pin_structure :
+    Gen.Handler.enableBeforeIdPhase = true ∧ Gen.Handler.headRereadBeforeRemove = true ∧
+    Gen.Handler.nextRereadAfterCallback = true ∧ Gen.Handler.dupCheckBoth = true ∧
+    Gen.Handler.deleteByCallbackOnly = true ∧ Gen.Handler.stanzaNewAtBack = true ∧
+    Gen.Handler.idNewAtBack = true ∧ Gen.Handler.timedNewAtFront = true ∧
+    Gen.Handler.newItemsDisabled = true := by decide
 
 /-! ### filters -/
 
@@ -101,6 +115,21 @@ theorem fuel_enough (beh : Beh) (ops : List Op) : run beh {} ops ≠ .error .fue
   have := run_post beh ops {} wf_init
   rw [h] at this
   exact this
+
+/-- … so for such behaviours every dispatch from a well-formed state returns (and `fire_exact` says
+    what it did) -/
+theorem fire_total (beh : Beh) (hb : ¬ SelfDeleting beh) (st : St) (c : Nat) (s : Stanza) (w : WF st) :
+    ∃ st', fireStanza beh st c s = .ok st' := by
+  have sp := fireStanza_post beh st c s w
+  revert sp
+  generalize fireStanza beh st c s = res
+  intro sp
+  cases res with
+  | ok st' => exact ⟨st', rfl⟩
+  | error e =>
+    cases e with
+    | stale => exact absurd sp hb
+    | fuel => exact sp.elim
 
 /-- a dispatch reaches a freed item only if one of the callbacks it invoked deleted its own callback
     function from the list it was dispatched from -/
@@ -194,6 +223,14 @@ theorem timed_not_early (beh : Beh) (ops : List Op) (st : St) (h : run beh {} op
   rcases run_log_ok beh ops {} st wf_init h (by simp) v hv with h1 | h1
   · exact absurd h1 hc
   · exact h1
+
+/-- … i.e. not before one full period after the stamp (for a period of 0 ms the statement is only that
+    the virtual clock does not run backwards) -/
+theorem timed_not_early_due (beh : Beh) (ops : List Op) (st : St) (h : run beh {} ops = .ok st) :
+    ∀ v ∈ st.log, v.cls ≠ .stanza → v.period > 0 → v.last + v.period ≤ v.time := by
+  intro v hv hc hp
+  have := timed_not_early beh ops st h v hv hc
+  omega
 
 /-- where the stamp comes from: registration stamps with the current time … -/
 theorem timed_stamps_add (st : St) (c fn ud p : Nat) (user : Bool) (h : hasKey (st.conns c).timed fn ud = false) :
